@@ -461,7 +461,7 @@ fn validation_part(rep: &mut Report, tier: Tier, seed: u64) {
 
 const SITE_B: &str = "expr::Context operator methods / expr::Builder (the expression handed to eval)";
 
-fn builder_part(rep: &mut Report, tier: Tier, seed: u64) {
+fn builder_part(rep: &mut Report, tier: Tier, seed: u64, only: Option<Sh>) {
     // depth 1 (all leaf kinds) and depth 2 (peepholes that look at a child); the random DAGs of part V add nothing here
     let mut shapes_all = gen_shapes_opt(tier, seed, false);
     if tier == Tier::Quick {
@@ -474,6 +474,9 @@ fn builder_part(rep: &mut Report, tier: Tier, seed: u64) {
         for sig in shapes::signatures(Ty::BV(w), w, true).iter().filter(|s| matches!(s.op, Op::Sdiv | Op::Udiv | Op::Smod | Op::Srem | Op::Urem)) {
             shapes_all.extend(shapes::depth1(sig, LeafMode::Minimal));
         }
+    }
+    if let Some(sh) = only {
+        shapes_all = vec![sh];
     }
     let parts: Vec<Report> = shapes_all
         .par_chunks(400)
@@ -999,9 +1002,17 @@ pub fn run(tier: Tier, seed: u64, replay: Option<serde_json::Value>) -> i32 {
     if replay.is_some() {
         rep.write_files = false;
     }
+    if let Some(r) = &replay {
+        if r["replay"]["part"].as_str() == Some("builders") {
+            if let Some(sh) = Sh::from_json(&r["replay"]["shape"]) {
+                builder_part(&mut rep, tier, seed, Some(sh));
+                return rep.finish();
+            }
+        }
+    }
     let methods = dispatch_part(&mut rep, tier);
     validation_part(&mut rep, tier, seed);
-    builder_part(&mut rep, tier, seed);
+    builder_part(&mut rep, tier, seed, None);
     // kernels: results of the Kani runner (written by ./check before this binary is started)
     let kpath = crate::report::verif_root().join(".build").join("kani_results.json");
     let mut kernel_summary = json!({"status": "kani runner did not produce results"});
